@@ -76,6 +76,9 @@ pub struct ObsM {
 pub enum HAct {
     Write(Tag, WriteOp, Val),
     DisallowSelf,
+    /// decoder v2: the first time it runs, the handler creates an observer on this node and
+    /// keeps it in the observer table (it must read NeverStabilised until the next stabilise)
+    ObserveNew(Tag),
 }
 pub struct SubM {
     pub id: u32,
@@ -131,6 +134,7 @@ pub struct Classes {
     pub state_dropped_in_the_middle: u32,
     pub siblings_cut_short: u32,
     pub swarmed: bool,
+    pub observers_created_in_handlers: u32,
 }
 
 #[derive(Clone, Debug)]
@@ -619,6 +623,14 @@ impl<'p> Harness<'p> {
                 _ => None,
             });
         }
+        let mut node_clones: Vec<Option<Incr<Val>>> = vec![];
+        for a in &acts {
+            node_clones.push(match a {
+                HAct::ObserveNew(t) => self.nodes.iter().find(|n| n.tag == *t).and_then(|n| n.incr.clone()),
+                _ => None,
+            });
+        }
+        let observed_once = std::cell::Cell::new(false);
         let acts2 = acts.clone();
         let tbl = Rc::downgrade(&self.obs_tbl);
         let can = build::canary();
@@ -639,6 +651,20 @@ impl<'p> Harness<'p> {
             let reads = build::read_all_observers();
             log(Event::Notify { sub: sid, upd, self_read, reads });
             tick(Role::Handler);
+            for (i, a) in acts2.iter().enumerate() {
+                if let (HAct::ObserveNew(t), Some(incr)) = (a, &node_clones[i]) {
+                    if !observed_once.replace(true) {
+                        if let Some(tb) = tbl.upgrade() {
+                            let o = incr.observe();
+                            if let Ok(mut tb) = tb.try_borrow_mut() {
+                                let id = tb.len() as u32;
+                                tb.push(ObsEntry { id, clones: vec![Some(o)] });
+                                log(Event::HandlerObserved { obs: id, node: *t });
+                            }
+                        }
+                    }
+                }
+            }
             for (a, vc) in acts2.iter().zip(var_clones.iter()) {
                 match (a, vc) {
                     (HAct::Write(vt, op, operand), Some(var)) => {
@@ -864,6 +890,16 @@ impl<'p> Harness<'p> {
                 OState::Disallowed => OState::Gone,
                 s => s,
             };
+        }
+        // observers created by handlers during this stabilise: not linked yet
+        for e in &events {
+            if let Event::HandlerObserved { obs, node } = e {
+                debug_assert_eq!(*obs as usize, self.obs.len());
+                self.trace.push(format!("      (handler created o{obs} = #{node}.observe())"));
+                self.obs.push(ObsM { id: *obs, node: *node, state: OState::Created, alive: 1, last: None, disallowed_in_handler: false, no_more_subs: false, n_subs: 0 });
+                self.sub_changed_since_stab.insert(*node);
+                self.classes.observers_created_in_handlers += 1;
+            }
         }
         let mf: Vec<Failure> = std::mem::take(&mut self.model.failures);
         self.failures.extend(mf);
@@ -1522,6 +1558,14 @@ impl<'p> Harness<'p> {
         }
         // sibling subscriptions of the same observer may or may not run before this one (hash
         // order): the oracle only forbids a callback *after* the disallow (log order)
+        if crate::choice::dv() >= 2 && ch.flag(1, 6) {
+            // only nodes that do not depend on bind-created nodes: such an observer can be linked at
+            // any later stabilise whatever else is (not) needed then
+            let ln: Vec<usize> = self.live_nodes().into_iter().filter(|i| !self.model.node(self.nodes[*i].tag).inner_tainted).collect();
+            if !ln.is_empty() {
+                acts.push(HAct::ObserveNew(self.nodes[ln[ch.choose(ln.len())]].tag));
+            }
+        }
         if ch.flag(1, 8) && (crate::choice::dv() >= 2 || self.obs[oi].n_subs == 0) {
             acts.push(HAct::DisallowSelf);
         }
@@ -1542,7 +1586,7 @@ impl<'p> Harness<'p> {
             let o = &self.obs[s.obs as usize];
             if o.alive > 0 || matches!(o.state, OState::InUse | OState::Disallowed) {
                 for a in &s.acts {
-                    if let HAct::Write(vt, ..) = a {
+                    if let HAct::Write(vt, ..) | HAct::ObserveNew(vt) = a {
                         roots.push(*vt);
                     }
                 }
